@@ -368,9 +368,11 @@ func (ft *funcTr) call(c *ast.CallExpr, want types.Type) ([]pre, string) {
 				pres = append(pres, p...)
 				parts = append(parts, v)
 			}
+			var rest []string // the arguments of a variadic parameter: a list
 			for i, a := range c.Args {
 				var pt types.Type
-				if i < sig.Params().Len() && !(sig.Variadic() && i >= sig.Params().Len()-1) {
+				variadic := sig.Variadic() && i >= sig.Params().Len()-1
+				if i < sig.Params().Len() && !variadic {
 					pt = sig.Params().At(i).Type()
 				}
 				if lf.IsError {
@@ -380,15 +382,26 @@ func (ft *funcTr) call(c *ast.CallExpr, want types.Type) ([]pre, string) {
 					}
 					continue
 				}
+				if variadic {
+					pt = sig.Params().At(sig.Params().Len() - 1).Type().(*types.Slice).Elem()
+					if t.kindOf(pt) == kOther {
+						t.fail(a, "variadic argument of type %s", pt)
+					}
+				}
 				p, v := ft.expr(a, pt)
 				pres = append(pres, p...)
-				parts = append(parts, v)
+				if variadic {
+					rest = append(rest, v)
+				} else {
+					parts = append(parts, v)
+				}
 			}
 			if lf.IsError {
 				return nil, "true"
 			}
 			if sig.Variadic() {
-				t.fail(c, "call of variadic %s", key)
+				// f(a, b, c) with f(xs ...T): the list [a; b; c]  (f(s...) was refused above)
+				parts = append(parts, "["+strings.Join(rest, "; ")+"]")
 			}
 			if lf.Monadic {
 				tmp := ft.temp()
